@@ -91,7 +91,8 @@ class QueryLeg(Leg):
     shard = 40
 
     def observe(self, case):
-        return Q.build_and_query(case["ops"], case["queries"], caching=bool(case.get("caching")), warm=bool(case.get("warm", True)))
+        return Q.build_and_query(case["ops"], case["queries"], caching=bool(case.get("caching")), warm=bool(case.get("warm", True)),
+                                 then_ops=case.get("then_ops", ()))
 
     def term(self, case, obs):
         if obs is None:
